@@ -42,7 +42,10 @@ func jsonRoundTrip(fn *ssa.Function, depth int, seen map[*ssa.Function]bool) (ma
 
 // rawCallerValue walks v back to where it comes from and returns the name of a parameter of the entry function it
 // reaches without passing through a JSON round trip ("" when there is none).
-func rawCallerValue(v ssa.Value) string {
+func rawCallerValue(v ssa.Value) string { return rawCallerValueIn(v, nil) }
+
+// rawCallerValueIn: as rawCallerValue; with within != nil only within's own parameters count.
+func rawCallerValueIn(v ssa.Value, within *ssa.Function) string {
 	seen := map[ssa.Value]bool{}
 	raw := ""
 	var walk func(v ssa.Value, depth int)
@@ -62,6 +65,9 @@ func rawCallerValue(v ssa.Value) string {
 			if x.Parent() != nil && len(x.Parent().Params) > 0 && x.Parent().Params[0] == x && x.Parent().Signature.Recv() != nil {
 				return // the receiver is not a value of the caller
 			}
+			if within != nil && x.Parent() != within {
+				return
+			}
 			raw = x.Name()
 		case *ssa.Call:
 			cc := x.Common()
@@ -71,9 +77,9 @@ func rawCallerValue(v ssa.Value) string {
 				}
 				return
 			}
-			if f := cc.StaticCallee(); f != nil {
-				if m, u := jsonRoundTrip(f, 0, map[*ssa.Function]bool{}); m && u {
-					return // from here on the value is in its JSON form
+			if f := cc.StaticCallee(); f != nil && f != within {
+				if m, u := jsonRoundTrip(f, 0, map[*ssa.Function]bool{}); m && u && rawReturn(f) == "" {
+					return // from here on the value is in its JSON form: everything f returns comes out of the decoder
 				}
 			}
 			if cc.IsInvoke() {
@@ -590,6 +596,22 @@ func ruleR16_15(w *World, r *Report) {
 	if n == 0 {
 		r.Lost("the creation of the gRPC server (grpc.NewServer)")
 	}
+	// the REST gateway reaches the service through that server: a handler registered in-process
+	// (Register...HandlerServer) is called by net/http directly and passes no interceptor
+	gw := 0
+	for _, fn := range u.ordaFuncs(func(p string) bool { return strings.HasPrefix(p, ordaPrefix+"/server/") }) {
+		for _, c := range callsIn(fn) {
+			nm := calleeName(c)
+			if !strings.HasPrefix(nm, "RegisterOrdaServiceHandler") {
+				continue
+			}
+			gw++
+			r.Check(nm != "RegisterOrdaServiceHandlerServer", fnName(flatRoot(fn))+"/REST gateway goes through the gRPC server", u.Pos(c.Pos()), "registered from the endpoint (or a client connection)", "the REST gateway calls the service in-process (RegisterOrdaServiceHandlerServer): REST requests bypass the gRPC server and with it the interceptor that recovers a handler's panic - such a request gets no answer (net/http closes the connection)")
+		}
+	}
+	if gw == 0 {
+		r.Lost("the registration of the REST gateway (RegisterOrdaServiceHandler...)")
+	}
 }
 
 // R18.10 a decoded notification is always handed to the loop
@@ -775,4 +797,177 @@ func reachableFromBlock(from, to *ssa.BasicBlock) bool {
 		return false
 	}
 	return walk(from)
+}
+
+// ---------------------------------------------------------------------------------------------
+// Round 11 (changes aimed at the code the repairs of round 10 touched)
+
+// rawReturn: the first result of fn derives from one of fn's own parameters without passing through the decoder.
+func rawReturn(fn *ssa.Function) string {
+	raw := ""
+	forEachInstr(flatRoot(fn), func(in ssa.Instruction) {
+		ret, ok := in.(*ssa.Return)
+		if !ok || ret.Parent() != fn || len(ret.Results) == 0 || raw != "" {
+			return
+		}
+		raw = rawCallerValueIn(ret.Results[0], fn)
+	})
+	return raw
+}
+
+// R17.15 the collection counter only grows
+func ruleR17_15(w *World, r *Report) {
+	u := w.Server()
+	if u == nil {
+		return
+	}
+	r.Rule("R17.15", "the counter that hands out collection numbers is written by GetNextCollectionNum alone (its atomic increment): no other function updates, replaces or deletes in that collection - a number 'given back' by a decrement is handed out again while another collection may already hold it, and two collections with one number share everything that is scoped by the number", 1)
+	n := 0
+	for _, fn := range u.ordaFuncs(func(p string) bool { return p == pMongo }) {
+		for _, c := range ownCallsIn(fn) {
+			recv, _ := recvAndArgs(c)
+			if recv == nil || !origins(recv).has("field:MongoCollections.counters") {
+				continue
+			}
+			n++
+			name := calleeName(c)
+			writes := strings.Contains(name, "Update") || strings.Contains(name, "Replace") || strings.Contains(name, "Delete") || strings.Contains(name, "Insert") || strings.Contains(name, "Write")
+			owner := fnName(flatRoot(fn))
+			if !writes {
+				r.OK(owner+"/"+name+" on the counter collection", u.Pos(c.Pos()), "a read")
+				continue
+			}
+			r.Check(ownersAllow(fn, func(nm string) bool { return nm == "MongoCollections.GetNextCollectionNum" }), owner+"/"+name+" on the counter collection", u.Pos(c.Pos()), "inside GetNextCollectionNum",
+				owner+" writes the counter of the collection numbers: only the atomic increment of GetNextCollectionNum may (a number that is given back or set is handed out a second time)")
+		}
+	}
+	if n == 0 {
+		r.Lost("accesses of the counter collection (MongoCollections.counters)")
+	}
+}
+
+// R12.13 a redis lock object owns its redsync mutex
+func ruleR12_13(w *World, r *Report) {
+	u := w.Server()
+	if u == nil {
+		return
+	}
+	r.Rule("R12.13", "GetRedisLock gives every lock object a redsync mutex of its own (a fresh NewMutex): a redsync mutex remembers the random value of its last acquisition, which is what makes a late Unlock of an expired holder harmless - shared between requests, that Unlock deletes the successor's lock", 1)
+	fn := u.Fn(pSUtils, "", "GetRedisLock")
+	if fn == nil {
+		r.Lost("utils.GetRedisLock")
+		return
+	}
+	n := 0
+	for _, st := range storesTo(fn, ".mutex") {
+		if !strings.HasSuffix(canonName(st.Addr), ".mutex") {
+			continue
+		}
+		n++
+		o := origins(st.Val)
+		shared := o.hasPrefix("global:") || o.has("call:Map.Load") || o.has("call:Map.LoadOrStore") || o.hasPrefix("maplookup")
+		fresh := false
+		for k := range o {
+			if strings.HasPrefix(k, "call:") && strings.HasSuffix(k, "NewMutex") {
+				fresh = true
+			}
+		}
+		r.Check(fresh && !shared, "GetRedisLock/a mutex of its own", u.Pos(st.Pos()), "rs.NewMutex(...) of this call", "the redsync mutex of the lock object comes from shared state (a package-level map) instead of a NewMutex of this call: two requests for one name share the acquisition value, and the late Unlock of a holder whose lease expired removes the lock its successor holds")
+	}
+	if n == 0 {
+		r.Lost("GetRedisLock: the mutex of the lock object")
+	}
+}
+
+// R13.10 the registry answers by key and type alone
+func ruleR13_10(w *World, r *Report) {
+	u := w.Client()
+	r.Rule("R13.10", "DatatypeManager.ExistDatatype says 'nothing registered' (nil, nil) only when the key is not in the registry: whatever state the registered datatype is in, a second request for its key gets that datatype (same type) or the refusal (another type) - never a second, unregistered datatype", 1)
+	fn := u.Fn(pCManagers, "DatatypeManager", "ExistDatatype")
+	if fn == nil {
+		r.Lost("DatatypeManager.ExistDatatype")
+		return
+	}
+	n := 0
+	bad := ""
+	forEachOwnInstr(fn, func(in ssa.Instruction) {
+		ret, ok := in.(*ssa.Return)
+		if !ok || len(ret.Results) != 2 {
+			return
+		}
+		for _, v := range ret.Results {
+			if k, isK := v.(*ssa.Const); !isK || k.Value != nil {
+				return
+			}
+		}
+		n++
+		paths, okp := reachingLitsOwn(fn, nil, ret)
+		if !okp || len(paths) == 0 {
+			bad = "undecided paths"
+			return
+		}
+		for _, p := range paths {
+			absent := false
+			for _, l := range p {
+				if l.Kind == "ok" && !l.Pol {
+					absent = true
+				}
+			}
+			if !absent {
+				bad = litsString(p)
+			}
+		}
+	})
+	r.Check(bad == "" && n > 0, "DatatypeManager.ExistDatatype/absent only when not registered", u.Pos(fn.Pos()), "(nil, nil) only under !ok of the registry lookup", "ExistDatatype answers 'nothing registered' under "+bad+": a key that is registered (e.g. still waiting for its first sync) is treated as free, the caller builds a second datatype for it that the manager then refuses to register, and that datatype is never synchronized")
+}
+
+// R14.10 a converted container is never nil
+func ruleR14_10(w *World, r *Report) {
+	u := w.Client()
+	r.Rule("R14.10", "ConvertToJSONSupportedValue never returns a slice it built from nil (var s []T; append...): an empty list would come out as nil, which JSON encodes as null, and null is the tombstone of map and list elements on the receiving replicas", 1)
+	fn := u.Fn(pTypes, "", "ConvertToJSONSupportedValue")
+	if fn == nil {
+		r.Lost("types.ConvertToJSONSupportedValue")
+		return
+	}
+	bad := ""
+	n := 0
+	forEachInstr(fn, func(in ssa.Instruction) {
+		ret, ok := in.(*ssa.Return)
+		if !ok || ret.Parent() != fn || len(ret.Results) != 1 {
+			return
+		}
+		for _, v := range resolvePhis(stripIface(ret.Results[0])) {
+			v = stripIface(v)
+			n++
+			if _, isSlice := v.Type().Underlying().(*types.Slice); !isSlice {
+				continue
+			}
+			seen := map[ssa.Value]bool{}
+			var walk func(x ssa.Value, d int)
+			walk = func(x ssa.Value, d int) {
+				x = stripIface(x)
+				if seen[x] || d > 12 {
+					return
+				}
+				seen[x] = true
+				switch y := x.(type) {
+				case *ssa.Phi:
+					for _, e := range y.Edges {
+						walk(e, d+1)
+					}
+				case *ssa.Call:
+					if b, isB := y.Call.Value.(*ssa.Builtin); isB && b.Name() == "append" {
+						walk(y.Call.Args[0], d+1)
+					}
+				case *ssa.Const:
+					if y.Value == nil {
+						bad = u.Pos(ret.Pos())
+					}
+				}
+			}
+			walk(v, 0)
+		}
+	})
+	r.Check(bad == "" && n > 0, "ConvertToJSONSupportedValue/no container built from nil", u.Pos(fn.Pos()), "every returned slice starts allocated (or is the argument)", "the slice returned at "+bad+" starts from nil: an empty list is converted to nil, travels as null and arrives as a tombstone - the key is missing (Map) or the element is dead (List) on every other replica")
 }
